@@ -13,7 +13,6 @@ package c29
 import (
 	"bytes"
 	"context"
-	"fmt"
 	"os"
 	"sort"
 	"strconv"
